@@ -106,6 +106,11 @@ def run(ctx, rep, tier):
             idx_bind = i
         if isinstance(st, ast.Assign) and "bound_arguments[" in src:
             idx_store = i
+    idx_fwd = next((i for i, st in enumerate(loop.body) if isinstance(st, ast.If) and ast.unparse(st.test) == "not argspec.should_early_bind() and value.data == 'identifier_const'"), None)
+    rep.check(idx_fwd is not None and idx_check is not None and idx_fwd < idx_check and
+              model.has("Macro.bind_arguments_for", "try:\n    value = parse_ctx._lookup_named_entity(MacroArgumentKind.EXPR, value.children[0])\nexcept UndefinedReferenceError:\n    pass", root=[loop.body[idx_fwd]] if idx_fwd is not None else None),
+              "C13.b", "Macro.bind_arguments_for", "a forwarded bare identifier is resolved to the caller's argument before the kind check looks at it",
+              "the kind check sees the bare identifier (allowed for every kind), not what is actually passed: `macro A(expr e) { B(e); }` hands an integer expression to `macro B(match w)` undiagnosed")
     rep.check(idx_check is not None and idx_bind is not None and idx_store is not None and idx_check < idx_bind < idx_store, "C13.b", "Macro.bind_arguments_for",
               "kind check is a top-level statement of the loop, before early binding and storing",
               "the argument-kind check is missing, conditional, or placed after binding: a wrong-kind argument is no longer a diagnosed error in every case")
@@ -160,21 +165,39 @@ def run(ctx, rep, tier):
     rep.check(model.has("ParseCtx._parse_stmt", "return self._parse_macro_call(stmt, referenced, stmt.children[1:])"), "C13.d", "ParseCtx._parse_stmt", "call statement expands the macro with the call's argument trees", "macro call site changed")
 
     # ------------------------------------------------------------------ C13.e lookup
-    rep.rule("C13.e", "lookup scans the whole frame stack innermost-first before global tables; early binding = identifier kinds; substituted expressions keep the destination type")
+    rep.rule("C13.e", "lookup consults the innermost frame (lexical scope of the macro being expanded), then the global tables; early binding = identifier kinds; substituted expressions keep the destination type")
     lne = model.func("ParseCtx._lookup_named_entity")
     loops = [n for n in walk_no_nested(lne) if isinstance(n, ast.For) and "bound_argument_stack" in ast.unparse(n.iter)]
-    ok = len(loops) == 1 and ast.unparse(loops[0].iter) == "reversed(self.bound_argument_stack)"
-    rep.check(ok, "C13.e", "ParseCtx._lookup_named_entity", "iterates reversed(self.bound_argument_stack)",
-              f"frame scan is `{ast.unparse(loops[0].iter) if loops else None}`: outer frames / innermost-first order lost - a nested call no longer sees its caller's parameters")
-    if loops:
-        lsrc = ast.unparse(loops[0])
-        rep.check("if (context, name) in entry:" in lsrc and "return entry[context, name]" in lsrc, "C13.e", "ParseCtx._lookup_named_entity", "first frame that binds (kind, name) wins", "frame lookup changed")
+    # lexical scoping: the body of a macro sees the frame of the macro being expanded (the innermost one) and the global tables - not its callers' frames
+    ok = len(loops) == 2 and all(ast.unparse(l.iter) == "self.bound_argument_stack[-1:]" for l in loops)
+    rep.check(ok, "C13.e", "ParseCtx._lookup_named_entity", "only the innermost frame (the macro being expanded) is consulted",
+              f"frame scan is `{[ast.unparse(l.iter) for l in loops]}`: a free name in a macro body is captured by an argument of whichever macro calls it "
+              "(`macro inner() { x = 1; } macro outer(out x) { inner(); }`: outer(y) sets y, the expansion sets x)")
+    single = [l for l in loops if "if (context, name) in entry:" in ast.unparse(l) and "return entry[context, name]" in ast.unparse(l)]
+    rep.check(len(single) == 1, "C13.e", "ParseCtx._lookup_named_entity", "single-kind lookup: the frame's binding of (kind, name) wins", "frame lookup changed")
+    if single:
         body = strip_doc(lne.body)
-        li = next(i for i, st in enumerate(body) if st is loops[0])
+        li = next(i for i, st in enumerate(body) if st is single[0])
         later = "\n".join(ast.unparse(s) for s in body[li + 1:])
         earlier = "\n".join(ast.unparse(s) for s in body[:li])
         rep.check("self.hooks" in later and "self.macros" in later and "self.state_object_spec" in later and "self.hooks" not in earlier.replace("self.hooks,", ""), "C13.e",
-                  "ParseCtx._lookup_named_entity", "global tables consulted only after the frames", "global lookup now precedes the argument frames")
+                  "ParseCtx._lookup_named_entity", "global tables consulted only after the frame", "global lookup now precedes the argument frame")
+    # C13.h: in a multi-kind lookup the frame is consulted for every kind before any global table (an argument shadows a global of another kind)
+    rep.rule("C13.h", "an argument shadows global names: multi-kind lookups try every kind in the frame first; the enum-constant shortcut of math variables yields to arguments")
+    multi = [n for n in lne.body if isinstance(n, ast.If) and ast.unparse(n.test) == "type(context) is not MacroArgumentKind"]
+    okm = False
+    if multi:
+        b = multi[0].body
+        okm = len(b) >= 2 and isinstance(b[0], ast.For) and ast.unparse(b[0].iter) == "self.bound_argument_stack[-1:]" and \
+            model.has("ParseCtx._lookup_named_entity", "for attempt in context:\n    if (attempt, name) in entry:\n        return (entry[attempt, name], attempt)", root=[b[0]]) and \
+            isinstance(b[1], ast.For) and "self._lookup_named_entity(attempt, from_tree)" in ast.unparse(b[1])
+    rep.check(okm, "C13.h", "ParseCtx._lookup_named_entity", "multi-kind lookup: frame for every kind, then the per-kind lookups in order",
+              "a multi-kind lookup reaches a global table of its first kind before it has looked for an argument of a later kind: `macro bar(hook foo) { foo(); }` expands a global macro foo instead of calling the hook")
+    pmv = dispatch_on(model.func("ParseCtx._parse_math_expr").body, "expr.data", consts).arm_for("math_var")
+    srcv = "\n".join(ast.unparse(s) for s in pmv) if pmv else ""
+    rep.check(re.search(r"is_argument = any\(\(\(kind, expr\.children\[0\]\.value\) in entry for entry in self\.bound_argument_stack\[-1:\] for kind in \(MacroArgumentKind\.EXPR, MacroArgumentKind\.OUT\)\)\)", srcv) is not None and
+              re.search(r"if not is_argument and into_storage is not None and \(?into_storage\.type == OutputStorageType\.ENUM\)? and", srcv) is not None, "C13.h", "ParseCtx._parse_math_expr",
+              "math variable: an argument of that name is used before the enum-constant reading", "`e = [v]` inside `macro m(expr v)` stores the enum constant v instead of the argument (while `e = v` uses the argument)")
     seb = model.func("MacroArgument.should_early_bind")
     kinds = set(re.findall(r"MacroArgumentKind\.(\w+)", ast.unparse(seb)))
     rep.check(kinds == kinds_produced - {"MATCH", "INTEXPR"}, "C13.e", "MacroArgument.should_early_bind", "early binding = identifier kinds", f"early-bound kinds {sorted(kinds)}")
